@@ -144,6 +144,10 @@ func setup(t *testing.T, out *hx.Out) *env {
 		s.App.StakingKeeper.SetAllowance(s.Ctx, s.ValAddr[0], e.owner.AccAddress(), a.Bytes(), big18(100).BigInt())
 		s.App.StakingKeeper.SetAllowance(s.Ctx, s.ValAddr[0], e.owner2.AccAddress(), a.Bytes(), big18(100).BigInt())
 	}
+	// every account that will call the precompiles has granted the sink an allowance (so that revoking it is a change)
+	for _, a := range append(append(append([]common.Address{}, e.pool...), e.direct.Address()), hookAddrOf(0), hookAddrOf(1)) {
+		s.App.StakingKeeper.SetAllowance(s.Ctx, s.ValAddr[0], a.Bytes(), e.sink.Bytes(), big18(5).BigInt())
+	}
 	for _, a := range append(append([]common.Address{}, e.pool...), e.direct.Address()) {
 		for k := 0; k < 2; k++ {
 			id, err := s.App.EthKeeper.AddToOutgoingPool(s.Ctx, a.Bytes(), helpers.GenExternalAddr(ethtypes.ModuleName),
